@@ -246,7 +246,7 @@ def coq_prove(ctx, prop_v, timeout=1500):
             return False
         ctx.cov["discharged"] = len(names)
         blocks = re.split(r"(?=Closed under the global context|Axioms:)", out)
-        axioms = sorted(set(re.findall(r"^([A-Za-z_][\w.']*)\s*:", "\n".join(b for b in blocks if b.startswith("Axioms:")), flags=re.M)))
+        axioms = sorted(set(re.findall(r"^([A-Za-z_][\w.']*)\s*:", "\n".join(b for b in blocks if b.startswith("Axioms:")), flags=re.M)) - {"Axioms"})
         nclosed = out.count("Closed under the global context")
         if axioms:
             ctx.cov["trusted_base"].append("Print Assumptions (this run): axioms used: " + ", ".join(axioms))
